@@ -13,7 +13,10 @@ import (
 // that completes, fails or rejects; guarded and unguarded vocabulary branches; error settings.
 func c06Opts() (o specOpts, msg verif.Opts) {
 	msg = smallMsgOpts()
-	switch verif.Choose("slice", 2) {
+	switch verif.Choose("slice", 3) {
+	case 2:
+		// branch-target variables
+		o = specOpts{actionMode: 0, noNilBranches: true, branches: 1, patMode: 0, fixedErr: true, pooled: true, small: true, targetVars: true, noLog: true}
 	case 0:
 		o = specOpts{actionMode: 2, branches: 1, patMode: 0, fixedTarget: true, actKinds: kindsAction, pooled: true, small: true, noLog: true}
 	default:
@@ -31,7 +34,7 @@ func c06Opts() (o specOpts, msg verif.Opts) {
 
 func c06Inputs(o specOpts, msgOpts verif.Opts) (b *builtSpec, st *State, msgs []interface{}, ctl *Control, props StepProps) {
 	b = buildSpec(o)
-	st = &State{NodeName: "n0", Bs: match.Bindings(verif.AnyMap("bs", smallBindingsOpts()))}
+	st = &State{NodeName: "n0", Bs: match.Bindings(verif.AnyMap("bs", c07Bindings(o)))}
 	if verif.Choose("unknownNode", 3) == 2 {
 		st.NodeName = "nowhere"
 	}
